@@ -183,6 +183,9 @@ func exec(c Case) (v ev.Verdict) {
 	return v
 }
 
+// runes that Unicode case folding maps onto ASCII letters (and similar traps for "looks plain" tests)
+var folding = []rune{0x212A, 0x017F, 0x0130, 0x0131, 0x1E9E, 0xFF21, 0xFF41, 0x00B5, 0x03C2, 0x2126, 0x00DF}
+
 var hostile = []rune{'\'', '"', '\\', '\n', '\r', '\t', 0, 0x7f, 0x85, 0x2028, '#', '=', '[', ']', '{', '}', '.', ' ', 'a', 'b', 'Z', '0', '_', '-', 'é', '\'', '"', ',', 0x1f, 0xfeff, 0x10ffff, '\b', '\f', 'u', 'x'}
 
 func genString(t *rapid.T, minLen int) string {
@@ -198,6 +201,17 @@ func genString(t *rapid.T, minLen int) string {
 			s = strings.ToValidUTF8(s, "?")
 		}
 		return s
+	case 5:
+		// plain-looking: ASCII bare-key characters plus one or two case-folding oddities
+		base := rapid.StringMatching(`[a-zA-Z0-9_-]{0,6}`).Draw(t, "fbase")
+		r := []rune(base)
+		n := rapid.IntRange(1, 2).Draw(t, "nfold")
+		for i := 0; i < n; i++ {
+			pos := rapid.IntRange(0, len(r)).Draw(t, "fpos")
+			f := rapid.SampledFrom(folding).Draw(t, "frune")
+			r = append(r[:pos:pos], append([]rune{f}, r[pos:]...)...)
+		}
+		return string(r)
 	case 2:
 		return rapid.SampledFrom([]string{"'''", `"""`, `'`, `"`, `\`, `\\`, "\n", "a\nb", " ", ".", "a.b", "a b", "#", "\"'\"", "''''", `A`, "\r\n", "\x00", "true", "1", "1e3", "[a]", "{a=1}", "a=b"}).Draw(t, "fixed")
 	default:
